@@ -12,7 +12,6 @@ import (
 	"strconv"
 	"strings"
 	"sync"
-	"time"
 	"unsafe"
 
 	gio "github.com/whatap/golib/io"
@@ -224,7 +223,7 @@ func callAccessors(obj interface{}) {
 			again = append(again, idx[(n+1)%len(idx)])
 		}
 		for _, j := range again {
-			if vh.GuardTimeout(1500*time.Millisecond, func() { v.Method(j).Call(nil) }).Timeout {
+			if guardPatient(func() { v.Method(j).Call(nil) }).Timeout {
 				accMu.Lock()
 				hangSeen[name]++
 				accMu.Unlock()
